@@ -155,7 +155,7 @@ def run(ctx):
             ok, nxt, _ = interp.serialisable(cur, [(W.action(a), args) for a, args in members], W.D, W.objs)
             slots = [None] * len(agents)
             for m in members:
-                slots[agents.index(m[1][0])] = m
+                slots[agents.index(c16.agent_of(m, agents))] = m
             lines.append(c16.joint_string(slots))
             cur = nxt
         if not lines:
@@ -196,7 +196,7 @@ def run(ctx):
             break
     if any(not s[0] for s in want_states):
         ctx.probes["state_without_facts"] += 1
-    if any(v < 0 or v != int(v) for s in want_states for v in s[1].values()):
+    if any(v < 0 or not float(v).is_integer() for s in want_states for v in s[1].values()):
         ctx.probes["negative_or_fractional_value"] += 1
     if multi and any(c == ("nop", ()) for st in want_steps for c in st):
         ctx.probes["nop_slot"] += 1
